@@ -27,7 +27,8 @@ def main():
     flags = [a for a in sys.argv[1:] if a.startswith("--")]
     seed, pkg, props = args[0], args[1], args[2:]
     patch = os.path.join(seed, "patch.diff")
-    demo = os.path.join(seed, "seed_demo_test.go")
+    import glob
+    demo = (sorted(glob.glob(os.path.join(seed, "seed_demo*_test.go"))) or [os.path.join(seed, "seed_demo_test.go")])[0]
     res = {"seed": seed, "props": {}, "confirm": None}
     assert sh("git -C " + REPO + " status --porcelain --untracked-files=no")[1].strip() == "", "/repo not clean"
     if "--no-confirm" not in flags:
